@@ -511,6 +511,10 @@ def check_axis(ctx):
 def check(ctx):
     core.check_properties_file(ctx, "Properties/C08.v", THEOREMS_WIND, core.AX_REALS)
     run_slices(ctx)
+    # the configuration step (TowerConfig.compute_local_xy, BLDFMConfig.__post_init__, the parser tables) is anchored in
+    # config_parser.py: its translator and bridge lemmas (built for C13) are obligations of this property too
+    import py2coq_interface
+    py2coq_interface.bridge(ctx)
     axis = check_axis(ctx)
     ut = _wind_only()
     goals, info, hist, failing, n_scal, n_arr = wind_correspondence(ctx, ut)
